@@ -13,6 +13,7 @@ QUICK_RUNS = 50000
 THOROUGH_RUNS = 1000000
 QUICK_WALL = 110
 THOROUGH_WALL = 1500
+CORPUS_VARIANTS = True      # past findings are replayed under every key kind and action relabelling
 CHUNK = 25
 RULE = ("one run = one generated table MDP (discounted with any reward signs and structure, or undiscounted proper) x admissible "
         "heuristic (constant bound, exact, exact+slack, per-state noisy slack, arbitrary values at absorbing states) x ordering options, "
@@ -126,7 +127,12 @@ def _execute(lao, view, cfg, ctx, sched):
                 sched.fire('F5_object_reuse')
                 ctx.probe('planner_reused')
                 state['main'] = False
-                planner.plan_on(make_mdp(MDPView(sib), ctx, alias=cfg.get('alias', 'fresh')))
+                _first = planner.plan_on(make_mdp(MDPView(sib), ctx, alias=cfg.get('alias', 'fresh')))
+                for _s in range(view.N):          # the first result is used before the object is used again
+                    try:
+                        _first.policy.action_dist(sk[_s])
+                    except Exception:
+                        pass
                 state['main'] = True
             state['log0'] = len(sched.log)
             r = planner.plan_on(mdp)
